@@ -76,6 +76,25 @@ func (a *Activation) callCommon(c *ssa.CallCommon, st *State, pos token.Pos, pre
 
 // callStatic: call of a known function (possibly an instantiation wrapper).
 func (a *Activation) callStatic(fn *ssa.Function, args []Val, bindings []Val, st *State, pos token.Pos, sig *types.Signature) (*State, []Val) {
+	out, res := a.callStatic0(fn, args, bindings, st, pos, sig)
+	if out != nil && !out.dead {
+		if con := a.rootContract(); con != nil {
+			target := fn
+			if o := fn.Origin(); o != nil {
+				target = o
+			}
+			name := fullName(target)
+			for _, c := range con.Clauses {
+				if c.Kind == "oncall" && strings.HasSuffix(name, c.Name) {
+					a.ghostAssign(out, c)
+				}
+			}
+		}
+	}
+	return out, res
+}
+
+func (a *Activation) callStatic0(fn *ssa.Function, args []Val, bindings []Val, st *State, pos token.Pos, sig *types.Signature) (*State, []Val) {
 	t := a.t
 	var tsubst map[*types.TypeParam]types.Type
 	target := fn
@@ -101,7 +120,17 @@ func (a *Activation) callStatic(fn *ssa.Function, args []Val, bindings []Val, st
 		return st2, res
 	}
 	if cons := t.eng.con.Funcs[name]; len(cons) > 0 && !(a.root && a.fn == target && false) {
-		con := pickContract(cons, "")
+		cs := ""
+		if rc := a.rootContract(); rc != nil {
+			cs = rc.Case
+		}
+		con := pickContract(cons, cs)
+		if con == nil {
+			con = pickContract(cons, "")
+		}
+		if con == nil && len(cons) > 0 {
+			t.errorf("%s: callee %s has only case contracts and none matches case %q", fullName(a.fn), name, cs)
+		}
 		if con != nil && !(con.Inline && t.eng.inModule(target) && a.depth < maxInlineDepth) && !a.inlineForced(name) {
 			return a.applyContract(con, target, args, bindings, st, pos, sig)
 		}
